@@ -80,6 +80,17 @@ func (block *CBlock) minIsIncrease(oldMin *Candidate, newMin *Candidate) bool {
 	}
 }
 
+// minIsNotWorse tests if the new last candidate of the list ranks at least as high as the old one, in the order the list is sorted by (votes, then
+// address). Only then the candidates outside the list, which rank below the old last one, can not have overtaken it. Comparing the votes alone is not
+// enough: a listed candidate which falls back to the votes of the last place may have to give way to an unlisted candidate with the same votes
+func (block *CBlock) minIsNotWorse(oldMin *Candidate, newMin *Candidate) bool {
+	if oldMin == nil || newMin == nil {
+		return false
+	}
+	val := newMin.Total.Cmp(oldMin.Total)
+	return val > 0 || (val == 0 && bytes.Compare(newMin.Address[:], oldMin.Address[:]) <= 0)
+}
+
 func (block *CBlock) canPick(src *Candidate, dst *Candidate) bool {
 	if (src.Total.Cmp(dst.Total) < 0) ||
 		((src.Total.Cmp(dst.Total) == 0) && (bytes.Compare(src.Address[:], dst.Address[:]) < 0)) {
@@ -104,7 +115,7 @@ func (block *CBlock) updateTop(changedCandidates []*Candidate) {
 		// some candidates unregistered. so maybe some normal nodes will become new candidates
 		// resort all candidates
 		block.Top.Rank(max_candidate_count, block.registeredCandidates())
-	} else if newTop.Min().Total.Cmp(block.Top.Min().Total) >= 0 {
+	} else if block.minIsNotWorse(block.Top.Min(), newTop.Min()) {
 		// the min votes become bigger, it means some old candidates get richer now.
 		// the other candidates whose vote is not changed, must not be in the top list. so we can just use the newTop
 		block.Top = newTop
